@@ -1,5 +1,6 @@
 import Pi2.MatchThm
 import Pi2.MatchPartial
+import Pi2.MatchTie
 /-!
 # C13 — matching is sound and complete
 
@@ -67,6 +68,72 @@ theorem head_transparent (n : Nat) (p q : NPat) (hp : p.Shape = true) (h : headF
     q.expand = p.expand ∧ q.isInst = false :=
   let r := headF_expand n p q hp h
   ⟨r.1, r.2.2⟩
+
+/-! ## the text of `pattern.py` is the model
+
+`Pi2/Gen/PyMatch.lean` is regenerated on every run from `match_single`, `match`, `Pattern.unwrap / extract`, the
+`deconstruct` static methods, `Instantiate.simplify`, `MetaVar.can_be_replaced_by` and `Notation.matches /
+assert_matches` (`vlib/transmatch.py`: statement by statement); `Pi2/MatchTie.lean` proves the generated functions equal
+to `headF`, `matchF`, `matchListF`, `notationMatchesF` — plain equations at every fuel.  In the generated functions the
+result type is `Option (Option (Option _))`: out of fuel / exception / Python's `None`. -/
+
+/-- every function the matching code consists of is covered by the translator -/
+theorem matching_translated : Gen.PyMatch.translated = true := MatchTie.translated
+
+/-- `match_single(pattern, instance, extend)` as written is `matchF` seeded with `extend if extend else {}`: same
+answer, same fuel, and it never raises -/
+theorem matching_text_is_the_model (n : Nat) (p i : NPat) (e : Option Subst) :
+    Gen.PyMatch.match_single n p i e = (matchF n p i (e.getD [])).map some :=
+  MatchTie.match_single_eq n p i e
+
+/-- `match(equations)` as written is `matchListF` from the empty dictionary -/
+theorem matchList_text_is_the_model (n : Nat) (eqs : List (NPat × NPat)) :
+    Gen.PyMatch.«match» n eqs = (matchListF n eqs []).map some :=
+  MatchTie.match_eq n eqs
+
+/-- F5 on the text: the empty list of equations is a *successful* match with the empty substitution, and so is a
+ground equation -/
+theorem matchList_text_empty_succeeds (n : Nat) :
+    Gen.PyMatch.«match» n [] = some (some (some [])) ∧
+    Gen.PyMatch.«match» 2 [(.evar 0, .evar 0)] = some (some (some [])) := ⟨rfl, by rfl⟩
+
+/-- `unwrap` / `deconstruct` as written return the head `headF` reaches, seen through the class's projection -/
+theorem destructors_text_is_the_model (cls : PyM.PyClass) (n : Nat) (p : NPat) :
+    Gen.PyMatch.Pattern.unwrap cls n p
+      = MatchTie.viaHead n p (fun h => if PyM.isinstance h cls then some (Gen.PyMatch.patternFields h) else none) ∧
+    Gen.PyMatch.Pattern.unwrap .Implies n p
+      = MatchTie.viaHead n p (fun h => match h with | .imp l r => some [l, r] | _ => none) ∧
+    Gen.PyMatch.Pattern.unwrap .App n p
+      = MatchTie.viaHead n p (fun h => match h with | .app l r => some [l, r] | _ => none) ∧
+    Gen.PyMatch.EVar.deconstruct n p = MatchTie.viaHead n p (fun h => match h with | .evar x => some x | _ => none) ∧
+    Gen.PyMatch.SVar.deconstruct n p = MatchTie.viaHead n p (fun h => match h with | .svar x => some x | _ => none) ∧
+    Gen.PyMatch.Symbol.deconstruct n p = MatchTie.viaHead n p (fun h => match h with | .sym x => some x | _ => none) ∧
+    Gen.PyMatch.Exists.deconstruct n p
+      = MatchTie.viaHead n p (fun h => match h with | .ex x b => some (x, b) | _ => none) ∧
+    Gen.PyMatch.Mu.deconstruct n p
+      = MatchTie.viaHead n p (fun h => match h with | .mu x b => some (x, b) | _ => none) :=
+  ⟨MatchTie.unwrap_eq cls n p, MatchTie.implies_unwrap_eq n p, MatchTie.app_unwrap_eq n p,
+   MatchTie.evar_deconstruct_eq n p, MatchTie.svar_deconstruct_eq n p, MatchTie.symbol_deconstruct_eq n p,
+   MatchTie.exists_deconstruct_eq n p, MatchTie.mu_deconstruct_eq n p⟩
+
+/-- `Notation.matches` as written is `notationMatchesF`; `assert_matches` raises exactly when it answers `None` -/
+theorem notation_matches_text_is_the_model (n : Nat) (N : PyM.PyNotation) (p : NPat) :
+    Gen.PyMatch.Notation.matches n N p = (notationMatchesF n N.definition N.arity p).map some ∧
+    Gen.PyMatch.Notation.assert_matches n N p = notationMatchesF n N.definition N.arity p :=
+  ⟨MatchTie.matches_eq n N p, MatchTie.assert_matches_eq n N p⟩
+
+/-- soundness stated about the text: whatever substitution the translated `match_single` returns instantiates the
+pattern to the instance -/
+theorem matching_text_sound (n : Nat) (p i : NPat) (s s' : Subst) (hp : p.Shape = true) (hi : i.Shape = true)
+    (hs : ShapeMap s = true) (h : Gen.PyMatch.match_single n p i (some s) = some (some (some s'))) :
+    Py.inst (Py.lookup (expand.expandMap s')) p.expand = i.expand ∧
+    (∀ k ∈ Py.metavars p.expand, (Py.lookup s' k).isSome = true) := by
+  rw [MatchTie.match_single_seeded] at h
+  have h' : matchF n p i s = some (some s') := by
+    cases hm : matchF n p i s with
+    | none => rw [hm] at h; cases h
+    | some o => rw [hm] at h; cases h; rfl
+  exact match_sound n p i s s' hp hi hs h'
 
 /-! Non-vacuity: a ground equation — the only solution is the empty substitution (the F5 case) -/
 example : matchF 10 (.evar 0) (.evar 0) [] = some (some []) := by rfl
